@@ -53,9 +53,15 @@ type op struct {
 	On    bool          `json:"on,omitempty"`    // dberr
 	Ctx   string        `json:"ctx,omitempty"`   // kind of the context the call runs under (API with context only)
 	Panic bool          `json:"panic,omitempty"` // read/index: the query closure panics if it gets called (recovered by the harness)
+	NF    string        `json:"nf,omitempty"`    // read/index: the shape in which the query closures report an absent row (nfshape_test.go)
 }
 
 func (o op) String() string {
+	if o.NF != nfBare {
+		nf := o.NF
+		o.NF = nfBare
+		return o.String() + "~" + nf
+	}
 	if o.Panic {
 		o.Panic = false
 		return o.String() + "!panic"
@@ -110,6 +116,7 @@ func (h *hist) step(o op) {
 	h.log = append(h.log, o.String())
 	h.absorbDels(nil)
 	h.db.q = map[string]int{}
+	h.db.lastNF = nil
 	env0 := h.envTrouble()
 	unreach := false
 	for _, n := range h.nodes {
@@ -233,7 +240,7 @@ func (h *hist) opRead(o op, written map[string]wr, mustAbsent map[string]string)
 		written[key] = wr{class: "take"}
 	case h.tainted(key):
 		// the cleaner's retry may remove the entry at any moment: no query-count demand
-		fresh := h.sameResult(got, err, want) || (h.db.fail && errors.Is(err, errDB))
+		fresh := h.sameResult(got, err, want) || (h.db.fail && errors.Is(err, errDB)) || h.foreignReturned(o, err)
 		served := cached && h.servedFrom(pre, got, err)
 		switch {
 		case fresh:
@@ -252,6 +259,9 @@ func (h *hist) opRead(o op, written map[string]wr, mustAbsent map[string]string)
 	case cached:
 		h.hits++
 		h.c.Obs("cached_reads_"+vp(pre), 1)
+		if pre.Val == "*" && st.nfShape != "" {
+			h.c.Obs("cached_reads_placeholder_written_for_shape_"+st.nfShape, 1)
+		}
 		if q > 0 {
 			h.viol("C06/cached/db-queried/"+vp(pre), fmt.Sprintf("read of cached %s ran %d database queries", key, q), res)
 		}
@@ -269,15 +279,45 @@ func (h *hist) opRead(o op, written map[string]wr, mustAbsent map[string]string)
 				h.viol("C06/dberr/not-returned/read", "uncached read during a database failure returned "+resStr(got, err), res)
 			}
 			mustAbsent[key] = "C06/dberr/cached/read"
+		} else if want == nil && negShape(o.NF) {
+			// negative control: the query said "absent" through an error that is not the configured
+			// not-found error. For this store that is a database error: returned, never cached
+			h.c.Obs("uncached_reads", 1)
+			h.absentRead(o)
+			res["query_reported"] = fmt.Sprint(h.db.lastNF)
+			if !h.foreignReturned(o, err) {
+				h.viol("C06/dberr/not-returned/notfound-"+shapeClass(o.NF), fmt.Sprintf("the query for %s failed with %q, which is not the configured not-found error %q; the read returned %s", key, fmt.Sprint(h.db.lastNF), h.st.notFound().Error(), resStr(got, err)), res)
+			}
+			mustAbsent[key] = "C06/dberr/cached/notfound-" + shapeClass(o.NF)
 		} else {
 			h.c.Obs("uncached_reads", 1)
-			if !h.sameResult(got, err, want) {
+			ok := h.sameResult(got, err, want)
+			if !ok {
 				h.viol("C06/coherence/uncached-read-wrong/read", fmt.Sprintf("read of %s returned %s, database holds %v", key, resStr(got, err), want), res)
 			}
-			written[key] = wr{class: "take"}
+			w := wr{class: "take"}
+			if want == nil {
+				h.absentRead(o)
+				res["query_reported"] = fmt.Sprint(h.db.lastNF)
+				h.checkConfigured(o, "read", err, res)
+			}
+			// what the query returned is in the cache from now on (healthy store): the next read must not reach the database
+			if ok && st.node.outage() == upKind && o.Ctx != ctxPre {
+				w.must = "C06/uncached-read/not-cached/" + rowOrNF(want, o)
+				w.shape = o.NF
+			}
+			written[key] = w
 			st.polluted = false
 		}
 	}
+}
+
+// rowOrNF: class of what an uncached read had to cache.
+func rowOrNF(want *row, o op) string {
+	if want != nil {
+		return "row"
+	}
+	return "notfound-" + shapeClass(o.NF)
 }
 
 // opGet: cache-only read.
